@@ -49,7 +49,7 @@ let oracle_run (a : args) trace =
   let starts : (int, int list) Hashtbl.t = Hashtbl.create 64 in      (* c -> start times, newest first *)
   let spans : (int, (int * int) list) Hashtbl.t = Hashtbl.create 64 in (* c -> (start, end) *)
   let open_s : (int, int) Hashtbl.t = Hashtbl.create 64 in
-  let nsnap = ref 0 and ncfg = ref 0 in
+  let nsnap = ref 0 and ncfg = ref 0 and lmax = ref 0 in
   List.iter (fun l -> if String.length l > 2 && l.[0] = 'P' then incr nsnap) trace;
   let n_ck = ref 1 in
   List.iter (fun l -> match toks_of l with
@@ -63,8 +63,9 @@ let oracle_run (a : args) trace =
   let si = ref 0 in
   List.iter (fun l ->
     match toks_of l with
-    | ["S"; t; c] ->
+    | ["S"; t; c; late] ->
       let t = int_of_string t and c = int_of_string c in
+      lmax := max !lmax (int_of_string late);
       evs := SchEvStart (z_of_int c) :: !evs; evsrc := l :: !evsrc;
       Hashtbl.replace starts c (t :: (try Hashtbl.find starts c with Not_found -> []));
       Hashtbl.replace open_s c t
@@ -112,7 +113,7 @@ let oracle_run (a : args) trace =
     (* liveness: in every window in which the checkable stayed schedulable, gaps between starts <= B *)
     List.iter (function
       | [c; wa; wb; b] ->
-        let b = b + 4 * hiccup in
+        let b = b + 4 * hiccup + 2 * !lmax in
         let ss = List.filter (fun t -> t >= wa && t <= wb) (List.rev (try Hashtbl.find starts c with Not_found -> [])) in
         let rec gaps prev = function
           | [] -> if wb - prev > b then fail (Printf.sprintf "liveness c=%d no-check-start-between %d and %d (window %d..%d bound %d)" c prev wb wa wb b)
@@ -122,7 +123,7 @@ let oracle_run (a : args) trace =
     (* forced checks *)
     List.iter (function
       | [c; t; until; b] ->
-        let b = b + 4 * hiccup in
+        let b = b + 4 * hiccup + 2 * !lmax in
         if until - t >= b then begin
           let ss = try Hashtbl.find starts c with Not_found -> [] in
           let sp = try Hashtbl.find spans c with Not_found -> [] in
